@@ -582,6 +582,8 @@ def do_subscript(self, base: Term, idx: Optional[Term], sl, st: State, node) -> 
             pass
         except (KeyError, IndexError, TypeError):
             self.emit("subscript", node, st, base=base, index=idx, certain_fail=True)
+            if self.sym_bytes:
+                raise PathDead()
             return mk("sub", base, idx)
         if base.op in ("tuple", "sbytes") and isinstance(i, int) and -len(base.args[0]) <= i < len(base.args[0]):
             return base.args[0][i]
@@ -589,6 +591,8 @@ def do_subscript(self, base: Term, idx: Optional[Term], sl, st: State, node) -> 
             if -len(o.items) <= i < len(o.items):
                 return o.items[i]
             self.emit("subscript", node, st, base=base, index=idx, certain_fail=True)
+            if self.sym_bytes:
+                raise PathDead()
             return mk("sub", base, idx)
         if o is not None and o.kind == "dict" and o.exact:
             try:
@@ -649,6 +653,10 @@ def binop(self, op: str, l: Term, r: Term, st: State, node=None) -> Term:
             return self.lift(v)
         except NotConst:
             pass
+    if op == "BitXor" and self.sym_bytes and lo is None and ro is None:
+        from .terms import xor_canon
+
+        return xor_canon(l, r)
     # exact list algebra
     if op == "Add" and lo is not None and ro is not None and lo.kind == "list" and ro.kind == "list" and lo.exact and ro.exact:
         return self.new_list(st, lo.items + ro.items)
